@@ -95,7 +95,8 @@ mutual
 def interpDT (ext : Ext) (dt : DataType) (nullable : Bool) (md : Metadata) : SVal → R LVal
   | .some v => interpDT ext dt nullable md v
   | .newtypeStruct _ v => interpDT ext dt nullable md v
-  | .none | .unit => interpNull dt nullable md
+  -- a unit struct is a unit (repo fix ae2fc46: `serialize_unit_struct` defaults to `serialize_unit`)
+  | .none | .unit | .unitStruct _ => interpNull dt nullable md
   | .seq xs =>
     if isUnknownVariant dt md then fail "unknown variant" else
     match dt with
@@ -208,7 +209,6 @@ def interpDT (ext : Ext) (dt : DataType) (nullable : Bool) (md : Metadata) : SVa
   | .f64 b => if isUnknownVariant dt md then fail "unknown variant" else interpScalar ext dt (.f64 b)
   | .char c => if isUnknownVariant dt md then fail "unknown variant" else interpScalar ext dt (.char c)
   | .str s => if isUnknownVariant dt md then fail "unknown variant" else interpScalar ext dt (.str s)
-  | .unitStruct n => if isUnknownVariant dt md then fail "unknown variant" else interpScalar ext dt (.unitStruct n)
 
 def interpAll (ext : Ext) (dt : DataType) (nullable : Bool) (md : Metadata) : SVals → R (List LVal)
   | .nil => .ok []
